@@ -10,7 +10,7 @@ projection and evaluates the property's monitor on the implementation's output;
 import sys, os, json, time, random, importlib, re, subprocess, hashlib
 sys.path.insert(0, os.path.dirname(os.path.abspath(__file__)))
 from common import *
-import build, runner
+import build, runner, intensify
 from runner import Script, Cfg
 
 FORBIDDEN = re.compile(r"\b(Admitted|admit|Axiom|Parameter|Conjecture|bypass_check)\b|Unset Guard|Unset Positivity|Unset Universe|type-in-type|Admit Obligations")
@@ -199,7 +199,15 @@ def main():
         body = json.load(open(replay))
         scripts = [Script.from_json(body["script"])] if "script" in body else []
     else:
-        scripts = list(prop.corpus()) + list(prop.generate(tier, rng))
+        # change-directed intensification: files anchored by this property differ from the validated baseline
+        changed = intensify.changed_files() if tier == "quick" else []
+        intense = tier == "quick" and intensify.relevant(pid, changed) and not getattr(prop, "NO_INTENSIFY", False)
+        if intense:
+            log("source files changed with respect to the validated baseline (%s): thorough generators, frame budget %d"
+                % (", ".join(changed[:6]), intensify.FRAME_BUDGET))
+            scripts = list(prop.corpus()) + list(intensify.capped(prop.generate("thorough", rng)))
+        else:
+            scripts = list(prop.corpus()) + list(prop.generate(tier, rng))
     issues, stats = evaluate(prop, scripts, drivers) if scripts else ([], {"frames": 0})
 
     # classify
@@ -288,6 +296,8 @@ def main():
                                "disagreements": len(cor_issues), "monitor_failures": len(mon_issues)},
             "traces_validated_against_impl": len(scripts),
             "known_findings_seen": sorted(seen_known),
+            "intensified_because_changed": (intensify.changed_files() if (not replay and tier == "quick" and
+                                            intensify.relevant(pid, intensify.changed_files())) else []),
         },
         "assumptions": getattr(prop, "ASSUMPTIONS", []),
         "wall_s": round(time.time() - t0, 2),
